@@ -556,6 +556,9 @@ def sk_tables(tier):
                 if tier == "quick" and e == 1 and npts > 2:
                     continue
                 out.append({"dist": d, "extra": e, "inflow_at": inflow_at, "npts": npts})
+    # two non-time dimensions (index gymnastics of _tile / diagonal / moveaxis)
+    for d in DISTS if tier == "thorough" else ("Normal", "Fixed"):
+        out.append({"dist": d, "extra": 2, "inflow_at": "middle", "npts": 1})
     return out
 
 
@@ -605,6 +608,8 @@ def u_lifetime_tables(W, sk):
         return
     sfa = out.value
     W.prove("sf.is_cached", sfa is lm._sf)
+    if W.symbolic and isinstance(sfa, symnp.SymArr):
+        _sffz = sfa.frozen()
     shp = W.shape_of(sfa) if W.is_ndarray(sfa) else None
     ok = shp is not None and len(shp) == 2 + len(M.esizes)
     W.prove("sf.rank", ok)
@@ -612,7 +617,7 @@ def u_lifetime_tables(W, sk):
         return
     for j, want in enumerate([n, n] + M.esizes):
         W.prove(f"sf.shape[{j}]", W.size_eq(shp[j], want))
-    sf = lambda t, c, *r: W.elem(sfa, (t, c) + tuple(r))
+    sf = (lambda t, c, *r: wrap(_sffz((t, c) + tuple(r)))) if (W.symbolic and isinstance(sfa, symnp.SymArr)) else (lambda t, c, *r: W.elem(sfa, (t, c) + tuple(r)))
     rngs = [(0, n), (0, n)] + [(0, e) for e in M.esizes]
     W.forall_range("sf.equals_declared_distribution", rngs, lambda idx: W.num_eq(sf(*idx), M.table(idx[0], idx[1], idx[2:])), detail="sf[t,c] = quadrature average over the cohort's interval of the named distribution's survival function at the age reached at the end of year t, with the cohort's own parameters")
     W.forall_range("sf.zero_for_later_cohorts", rngs, lambda idx: W.implies(idx[1] > idx[0], W.num_eq(sf(*idx), 0)))
@@ -747,8 +752,9 @@ def u_tables_follow_prms(W, sk):
         if o.kind != "return":
             return
         if sk["read"] in ("pdf", "both"):
-            sf_old = lambda t, c, *r: W.elem(lm._sf, (t, c) + tuple(r))
             if W.symbolic:
+                old_fz = lm._sf.frozen()  # the table as it is *now* (not whatever lm._sf is bound to later)
+                sf_old = lambda t, c, *r: wrap(old_fz((t, c) + tuple(r)))
                 W.c.loop_contracts.append(PdfLoop(W, M, sf_old))
             o = W.call(lambda: lm.pdf, stubs=stubs)
             W.prove("history.first_pdf_read_returns", o.kind == "return", detail=repr(o))
@@ -781,7 +787,11 @@ def u_tables_follow_prms(W, sk):
     if o.kind != "return":
         return
     sfa = o.value
-    sf = lambda t, c, *r: W.elem(sfa, (t, c) + tuple(r))
+    if W.symbolic and isinstance(sfa, symnp.SymArr):
+        _fz2 = sfa.frozen()
+        sf = lambda t, c, *r: wrap(_fz2((t, c) + tuple(r)))
+    else:
+        sf = lambda t, c, *r: W.elem(sfa, (t, c) + tuple(r))
     W.forall_range("after_set_prms.sf_is_table_of_current_parameters", rngs, lambda idx: W.num_eq(sf(*idx), M.table(idx[0], idx[1], idx[2:])), detail="the survival table read after set_prms must be the one a fresh model with these parameters computes")
     if lm._pdf is None:
         if W.symbolic:
